@@ -95,6 +95,39 @@ func applyOp(w *World, d *core.Dir, op hOp) *core.RunResult {
 			}
 			d.Put(core.PemPath(e.File), buf)
 		}
+	case "corrupt-key":
+		// the key block keeps its armour and its outer PKCS#8 frame, but what is inside is no key any more (bit rot, a
+		// botched manual edit): op.Int picks where the damage is
+		if f := d.Files[core.PemPath(e.File)]; f != nil {
+			a := core.ParseArtifact(f.Data)
+			if a.KeyDER != nil && len(a.KeyDER) > 40 {
+				bad := append([]byte(nil), a.KeyDER...)
+				switch op.Int % 3 {
+				case 0: // the inner structure's tag
+					for i := 0; i+1 < len(bad); i++ {
+						if bad[i] == 0x04 && i > 8 && int(bad[i+1])+i+2 == len(bad) {
+							bad[i+2] ^= 0x55
+							break
+						}
+					}
+				case 1: // bytes in the middle
+					bad[len(bad)/2] ^= 0xff
+					bad[len(bad)/2+1] ^= 0xff
+				default: // the tail
+					bad[len(bad)-1] ^= 0x01
+					bad[len(bad)-5] ^= 0x80
+				}
+				var buf []byte
+				if a.HasHashLine {
+					buf = append(buf, []byte("#HASH:"+a.Hash+"\n")...)
+				}
+				if a.CertDER != nil {
+					buf = append(buf, core.PemBlock("CERTIFICATE", a.CertDER)...)
+				}
+				buf = append(buf, core.PemBlock("PRIVATE KEY", bad)...)
+				d.Put(core.PemPath(e.File), buf)
+			}
+		}
 	case "foreign-pem":
 		d.Put(core.PemPath(e.File), op.Data)
 	case "copy-pem":
@@ -532,7 +565,7 @@ func genHistory(t *rapid.T, maxOps int) c12Case {
 		case 9:
 			op = hOp{Kind: "truncate-pem", Ent: alias, Int: rapid.IntRange(0, 99).Draw(t, l+"-pct")}
 		case 10:
-			op = hOp{Kind: rapid.SampledFrom([]string{"strip-key", "strip-cert"}).Draw(t, l+"-strip"), Ent: alias}
+			op = hOp{Kind: rapid.SampledFrom([]string{"strip-key", "strip-cert", "corrupt-key"}).Draw(t, l+"-strip"), Ent: alias, Int: rapid.IntRange(0, 2).Draw(t, l+"-where")}
 		case 11:
 			key := pkcs8ForAlg(t, "P-256", l+"-foreignkey")
 			op = hOp{Kind: "foreign-pem", Ent: alias, Data: append(core.PemBlock("CERTIFICATE", goSelfSigned(key, fmt.Sprintf("Foreign %d", k))), core.PemBlock("PRIVATE KEY", key)...)}
@@ -573,7 +606,7 @@ func c12Fix(w *World, alias string) hOp {
 func TestC12(t *testing.T) {
 	r := core.Start(t, "C12")
 	defer r.Finish()
-	r.Rule = "stateful histories generated against an abstract model of the directory: initial forest of up to 5 entities / 4 tiers (EC keys, profiles, extensions incl. SKI/AKI hash), usually populated by a first run, then 1-6 operations from {edit subject, set / change / remove the validity block, replace extension list, re-parent to a non-descendant, set/clear profile reference, edit a profile (validity, extension, optional flag), add a leaf, remove a leaf, delete / truncate (0-99%) / strip key / strip certificate / replace with a foreign certificate+key / overwrite with another entity's artifact the artifact of any entity, touch a config, put a build-time mistake into a config (runs then fail part-way until it is taken out again), run with any of the 32 flag sets}, each optionally followed by a run, and finally a default run. After every successful default run: (I1) every entity has a parseable certificate and key material; (I2) C01's chain checks for all certificates gopki made (hash line); (I3) each of those equals, after normalising serial/key/signature/run-relative dates/key-derived ids, the certificate of a from-scratch gopki run over the current configuration files; (I4) complete user-supplied root artifacts without hash line are byte-identical; (I5) one more default run is a no-op. Non-trivial = history in which some default run regenerates a strict, non-empty subset of the entities; distinct by the whole history."
+	r.Rule = "stateful histories generated against an abstract model of the directory: initial forest of up to 5 entities / 4 tiers (EC keys, profiles, extensions incl. SKI/AKI hash), usually populated by a first run, then 1-6 operations from {edit subject, set / change / remove the validity block, replace extension list, re-parent to a non-descendant, set/clear profile reference, edit a profile (validity, extension, optional flag), add a leaf, remove a leaf, delete / truncate (0-99%) / strip key / strip certificate / damage the inside of the key block of / replace with a foreign certificate+key / overwrite with another entity's artifact the artifact of any entity, touch a config, put a build-time mistake into a config (runs then fail part-way until it is taken out again), run with any of the 32 flag sets}, each optionally followed by a run, and finally a default run. After every successful default run: (I1) every entity has a parseable certificate and key material; (I2) C01's chain checks for all certificates gopki made (hash line); (I3) each of those equals, after normalising serial/key/signature/run-relative dates/key-derived ids, the certificate of a from-scratch gopki run over the current configuration files; (I4) complete user-supplied root artifacts without hash line are byte-identical; (I5) one more default run is a no-op. Non-trivial = history in which some default run regenerates a strict, non-empty subset of the entities; distinct by the whole history."
 	r.Assumptions = []string{"edits keep the hierarchy acyclic and key types stable (EC only), so every default run is expected to be able to succeed; a failing run makes no claim"}
 	wrap := func(c c12Case) *core.Failure {
 		f, class := checkC12(c)
